@@ -34,7 +34,8 @@ type C17Event struct {
 
 type C17Script struct {
 	Events []C17Event `json:"events"`
-	Procs  int        `json:"procs"` // GOMAXPROCS during the case
+	Procs  int        `json:"procs"`  // GOMAXPROCS during the case
+	SlowMs int        `json:"slowMs"` // the application needs this many virtual ms to process a visible-services update
 }
 
 type svcModel struct {
@@ -61,6 +62,7 @@ type c17Reader struct {
 	mu    sync.Mutex
 	seq   int
 	Calls []visible
+	slow  time.Duration
 }
 
 func (r *c17Reader) RemoteSKIConnected(string)    {}
@@ -73,6 +75,11 @@ func (r *c17Reader) VisibleRemoteServicesUpdated(entries []api.RemoteService) {
 	r.seq++
 	r.Calls = append(r.Calls, visible{r.seq, append([]api.RemoteService(nil), entries...)})
 	r.mu.Unlock()
+	if r.slow > 0 {
+		// further mDNS events arrive while the application is busy with this update. Wall-clock
+		// pause: reports waiting for the manager's report mutex would freeze the virtual clock.
+		core.RealSleep(r.slow)
+	}
 }
 func (r *c17Reader) ServiceShipIDUpdate(string, string)                            {}
 func (r *c17Reader) ServicePairingDetailUpdate(string, *api.ConnectionStateDetail) {}
@@ -99,7 +106,7 @@ type c17Result struct {
 
 func runC17(sc C17Script) *c17Result {
 	res := &c17Result{}
-	rd := &c17Reader{}
+	rd := &c17Reader{slow: time.Duration(sc.SlowMs) * time.Millisecond}
 	mgr := mdns.NewMDNS(localSKI, "b", "m", "t", "s", nil, "local-id", "local", 4711, nil, mdns.MdnsProviderSelectionAll)
 	h := hub.NewHub(rd, mgr, 4711, tls.Certificate{}, api.NewServiceDetails(localSKI))
 	fp := &FakeProvider{}
@@ -177,8 +184,15 @@ func runC17(sc C17Script) *c17Result {
 			}
 		}
 		if ev.Yield {
-			synctest.Wait()
+			if sc.SlowMs > 0 {
+				core.RealSleep(time.Duration(sc.SlowMs) * time.Millisecond / 2) // the next event lands inside a running delivery
+			} else {
+				synctest.Wait()
+			}
 		}
+	}
+	if sc.SlowMs > 0 {
+		core.RealSleep(time.Duration(sc.SlowMs*(len(sc.Events)+3)) * time.Millisecond) // all deliveries done
 	}
 	synctest.Wait()
 	time.Sleep(time.Second)
@@ -270,7 +284,7 @@ func judgeC17(t *testing.T, sc C17Script) (key, msg string, res *c17Result) {
 var c17Addrs = []string{"192.168.1.10", "192.168.1.11", "10.0.0.5", "2001:db8::1", "2001:db8::2", "fe80::1", "fe80::abcd"}
 
 func genC17(t *rapid.T) C17Script {
-	sc := C17Script{Procs: rapid.SampledFrom([]int{1, 2, 16}).Draw(t, "procs")}
+	sc := C17Script{Procs: rapid.SampledFrom([]int{1, 2, 16}).Draw(t, "procs"), SlowMs: rapid.SampledFrom([]int{0, 0, 0, 2}).Draw(t, "slowMs")}
 	n := rapid.IntRange(1, 30).Draw(t, "n")
 	for i := 0; i < n; i++ {
 		ev := C17Event{Svc: rapid.IntRange(0, 4).Draw(t, "svc"), Remove: rapid.IntRange(0, 3).Draw(t, "remove") == 0,
@@ -312,7 +326,7 @@ func TestC17(t *testing.T) {
 				burst++
 			}
 		}
-		st.Case(sc, nt, fmt.Sprintf("gomaxprocs:%d", sc.Procs), "has-burst:"+b2s(burst > 1))
+		st.Case(sc, nt, fmt.Sprintf("gomaxprocs:%d", sc.Procs), "has-burst:"+b2s(burst > 1), "slow-application:"+b2s(sc.SlowMs > 0))
 		if key != "" {
 			st.Fail(key, msg, sc)
 			rt.Fatalf("%s: %s", key, msg)
